@@ -543,7 +543,12 @@ V('C01-comment-from-two-tokens', 'C01', NC,
   "                comment_post_space=tok.post_space,\n                pos=tok.pos,\n                pos_end=tok.pos_end - len(tok.post_space)\n        )", 'R01c')
 V('C01-call-node-end-before-args', 'C01', 'pylatexenc/macrospec/_macrocallparser.py',
   "        pos_start = self.token_call.pos #token_reader.cur_pos()\n",
-  "        pos_start = self.token_call.pos #token_reader.cur_pos()\n        pos_end = token_reader.cur_pos()\n", 'R01d')
+  "        pos_start = self.token_call.pos #token_reader.cur_pos()\n        pos_end = token_reader.cur_pos()\n", 'SILENT')
+# (the early assignment above is overwritten by the one after the arguments and the body: behaviour is unchanged;
+#  the fragment-matching version of R01d used to flag it)
+V('C01-call-node-end-at-start-without-body', 'C01', 'pylatexenc/macrospec/_macrocallparser.py',
+  "        pos_end = token_reader.cur_pos()\n\n        node_kwargs = dict(self.node_extra_kwargs)\n",
+  "        pos_end = token_reader.cur_pos() if self.parse_body else pos_start\n\n        node_kwargs = dict(self.node_extra_kwargs)\n", 'R01d')
 V('C01-group-end-at-token', 'C01', 'pylatexenc/latexnodes/parsers/_delimited.py',
   "        token_reader.move_past_token(token)\n        logger.debug(\n            \"LatexDelimitedExpressionParser moved",
   "        token_reader.move_to_token(token)\n        logger.debug(\n            \"LatexDelimitedExpressionParser moved", 'R01d')
@@ -899,3 +904,8 @@ V('C16-revert-D31-legacy-star-eos', 'C16', 'pylatexenc/macrospec/_pyltxenc2_argp
                 if tok.tok == 'char' and tok.arg.startswith('*'):
 """, 'R16q', 'D31: legacy star slot at end of input loses all arguments')
 
+
+V('C13-revert-D32-xml-bare-accent', 'C13', 'pylatexenc/latexencode/_uni2latexmap_xml.py',
+  """0x0301: "\\\\'{}",
+""", """0x0301: "\\\\'",
+""", 'R13o', 'D32: unicode-xml maps a combining accent to a bare accent macro')
